@@ -9,14 +9,16 @@ from vlib.build import ints
 
 PROPERTY = "C02"
 RULE = ("Generated raw data: vertices (3-D, or 2-D through from_arrays), declared edges in either orientation incl. self-loops, "
-        "negative and >=N indices, faces of arity 3-7 (manifold surfaces from the shared generator, or arbitrary index tuples), "
+        "negative and >=N indices, faces of arity 3-7 (manifold surfaces from the shared generator, arbitrary index tuples, or faces "
+        "with a repeated consecutive vertex whose side is a self-loop), cell soups and mixed tet/hex cells, "
         "tetrahedral cells (conforming meshes) or hexahedral grid cells, optionally pre-declared cell faces; edge attributes "
-        "(5 types, arity 1-3, sparse or dense) set before construction; index rows as list / tuple / numpy row; completion "
+        "(5 types, arity 1-3, sparse or dense) set before construction; index rows as list / tuple / numpy row of int64 .. uint8; "
+        "completion switches and the duplicate-attribute switch on/off; "
         "switches on/off; route = class constructor, _instanciate_raw_mesh_data, from_arrays, or reconstruction from a built mesh "
         "once or twice. The finished object is compared with a normal form computed from the raw data alone. non-trivial = an "
         "invalid declared edge carrying an attribute value, or cells sharing a face, or numpy rows, or a reconstruction step; "
         "distinct = distinct raw inputs x route.")
-ASSUMPTIONS = ["faces have pairwise distinct in-range vertices; declared edges are pairwise distinct as unordered pairs",
+ASSUMPTIONS = ["faces have in-range vertices, pairwise distinct except in the degenerate-face class; declared edges are pairwise distinct as unordered pairs",
                "with complete_faces_from_cells off every face of every cell is declared (cell-face records cannot exist otherwise)"]
 
 PYTYPE = {"bool": bool, "int": int, "float": float, "complex": complex, "str": str}
